@@ -30,6 +30,17 @@ struct Blips : au::UnitImpl<au::Time, decltype(au::mag<77>() / au::mag<2>())> {}
 '''
 
 
+# generated units used by C07 alone
+PREAMBLE7 = PREAMBLE + r'''
+namespace gen {
+// named, magnitude 1, origin 5/4 K (Kelvins has origin 0, Celsius 273.15 K): ordered by origin only
+struct OffsetK : au::Kelvins {
+    static constexpr auto origin() { return (au::kelvins / au::mag<4>())(5); }
+};
+}
+'''
+
+
 def gen_unit(name, cpp, dim, mag):
     return model.Unit(name, cpp, dim, mag, 0, None, named=True)
 
@@ -91,24 +102,119 @@ def buckets(tier):
     return {"length": length, "time": time, "angle": angle, "data": data, "temperature": temp, "energy": energy, "speed": speed}
 
 
+def rank(u):
+    """Model of the kind of type a unit is (the library orders quantity-equivalent units by kind first)."""
+    return getattr(u, "rank", 0 if u.named else None)
+
+
+def tagged(u, rank, sf=None):
+    u.rank, u.sf = rank, sf
+    return u
+
+
+def conflict(units):
+    """Documented exclusion, generalised to every kind of unit type: two distinct types of the same kind with identical
+    dimension, magnitude and origin (and, for two scaled units, identical scale factor) cannot be ordered, unless both are
+    compound products (which are ordered structurally)."""
+    if model.ordering_conflict(units):
+        return True
+    for i in range(len(units)):
+        for j in range(i + 1, len(units)):
+            a, b = units[i], units[j]
+            ra, rb = rank(a), rank(b)
+            if ra is None or rb is None or ra != rb or ra in (0, 1) or a.cpp == b.cpp:
+                continue
+            if model.same_quantity(a, b) and a.origin == b.origin:
+                if ra == 3 and getattr(a, "sf", None) is not None and model.mag_key(a.sf) != model.mag_key(getattr(b, "sf", None) or {}):
+                    continue
+                return True
+    return False
+
+
+def extra_buckets(tier):
+    """Round-3 alphabets: every kind of unit type as a list element (Pow, RatioPow, bare UnitImpl, UnitProduct<>, CommonUnit,
+    CommonPointUnit, ScaledUnit of those), pi powers of both signs, scale factors with a prime next to 2^40, named units with
+    origin and scale."""
+    P = {p[0]: p for p in model.ALL_PREFIXES}
+    m, s, inch, ft = U["meters"], U["seconds"], U["inches"], U["feet"]
+    L3, Lh, Tm1 = model.d(L=3), {model.L: Fr(1, 2)}, model.d(T=-1)
+
+    def typ(name, expr, dim, mag, rk, origin=0, sf=None, is_type=False):
+        return tagged(model.Unit(name, expr if is_type else "decltype(%s)" % expr, dim, mag, origin, None, named=False), rk, sf)
+
+    def sc(base, mg, name):     # ScaledUnit over an arbitrary base
+        return tagged(anon(base, mg, name), 3, mg)
+    cm, dm, mm_ = (model.prefixed(P[x], m) for x in ("Centi", "Deci", "Milli"))
+    ms = model.prefixed(P["Milli"], s)
+    cm3 = typ("cm^3", "au::pow<3>(au::Centi<au::Meters>{})", L3, model.vpow(cm.mag, 3), 4)
+    volume = [U["liters"], cm3, typ("dm^3", "au::pow<3>(au::Deci<au::Meters>{})", L3, model.vpow(dm.mag, 3), 4),
+              typ("in^3", "au::pow<3>(au::Inches{})", L3, model.vpow(inch.mag, 3), 4), U["us_gallons"],
+              model.prefixed(P["Milli"], U["liters"]), sc(cm3, model.mag_int(1000), "cm^3*1000"),
+              typ("m^2*mm", "au::pow<2>(au::Meters{}) * au::Milli<au::Meters>{}", L3, dict(mm_.mag), 1),
+              U["us_pints"]]
+    rtm = typ("rt(m)", "au::root<2>(au::Meters{})", Lh, {}, 5)
+    rootlen = [rtm, typ("rt(cm)", "au::root<2>(au::Centi<au::Meters>{})", Lh, model.vpow(cm.mag, Fr(1, 2)), 5),
+               sc(rtm, model.mag_int(3), "rt(m)*3"), typ("rt(ft)", "au::root<2>(au::Feet{})", Lh, model.vpow(ft.mag, Fr(1, 2)), 5),
+               typ("rt(mm)", "au::root<2>(au::Milli<au::Meters>{})", Lh, model.vpow(mm_.mag, Fr(1, 2)), 5),
+               typ("rt(m^3)/m", "au::root<2>(au::pow<3>(au::Meters{})) / au::Meters{}", Lh, {}, None)]
+    frequency = [U["hertz"], typ("1/s", "au::pow<-1>(au::Seconds{})", Tm1, {}, 4),
+                 typ("1/min", "au::pow<-1>(au::Minutes{})", Tm1, model.vinv(U["minutes"].mag), 4), model.prefixed(P["Kilo"], U["hertz"]),
+                 typ("1/ms", "au::pow<-1>(au::Milli<au::Seconds>{})", Tm1, model.vinv(ms.mag), 4),
+                 sc(U["hertz"], model.mag_ratio(3, 7), "Hz*3/7"), typ("1/h", "au::inverse(au::Hours{})", Tm1, model.vinv(U["hours"].mag), 4)]
+    unitless = [U["unos"], U["percent"], typ("m/m", "au::Meters{} / au::Meters{}", {}, {}, 1),
+                sc(U["percent"], model.mag_int(100), "%*100"), sc(U["unos"], model.mag_ratio(1, 1000), "U/1000"),
+                sc(U["percent"], model.mag_ratio(3, 7), "%*3/7"), typ("%^2", "au::pow<2>(au::Percent{})", {}, model.vpow(U["percent"].mag, 2), 4)]
+    pi = model.MAG_PI
+    length_pi = [m, ft, sc(m, dict(pi), "m*pi"), sc(m, model.vinv(pi), "m/pi"), sc(m, model.vmul(model.vinv(pi), model.mag_int(2)), "m*2/pi"),
+                 sc(m, model.vpow(pi, 2), "m*pi^2"), sc(m, model.vmul(pi, model.mag_int(3)), "m*3pi"), model.prefixed(P["Kilo"], m),
+                 sc(m, model.vmul(model.vpow(pi, -2), model.mag_ratio(5, 3)), "m*5/(3pi^2)")]
+    big = 2 ** 40
+    length_big = [m, inch, sc(inch, model.mag_ratio(big, big - 1), "in*2^40/(2^40-1)"), sc(m, model.mag_ratio(big - 87, big), "m*(2^40-87)/2^40"),
+                  sc(inch, model.mag_ratio(big - 1, big // 2), "in*(2^40-1)/2^39"), sc(m, model.mag_ratio(3, 7), "m*3/7"),
+                  sc(m, model.mag_ratio(big - 87, 3), "m*(2^40-87)/3"), sc(ft, model.mag_ratio(big, big - 87), "ft*2^40/(2^40-87)")]
+    # bare UnitImpl, CommonUnit and named units next to each other (kinds 0, 2, 3, 6)
+    kinds = [m, ft, inch, typ("UnitImpl<L>", "au::UnitImpl<au::Length>", model.d(L=1), {}, 2, is_type=True),
+             typ("UnitImpl<L,11>", "au::UnitImpl<au::Length, decltype(au::mag<11>())>", model.d(L=1), model.mag_int(11), 2, is_type=True),
+             gen_unit("zorks", "gen::Zorks", m.dim, model.mag_int(11)),
+             typ("common(ft,in*5)", "au::CommonUnitT<au::Feet, decltype(au::Inches{} * au::mag<5>())>", model.d(L=1), dict(inch.mag), 6, is_type=True),
+             typ("common(m,yd)", "au::CommonUnitT<au::Meters, au::Yards>", model.d(L=1), model.mag_gcd([m.mag, U["yards"].mag]), 6, is_type=True)]
+    # named units with scale and/or origin; a CommonPointUnit as a list element (its magnitude also divides the unit in
+    # which the origin displacement is expressed, centi-kelvins for Celsius (27315 cK), so it is K/100)
+    K, C, F = U["kelvins"], U["celsius"], U["fahrenheit"]
+    rank_ = model.Unit("rankines", "au::Rankines", K.dim, model.mag_ratio(5, 9), 0, None, named=True)
+    offk = model.Unit("offsetK", "gen::OffsetK", K.dim, {}, Fr(5, 4), None, named=True)
+    temp2 = [K, C, F, rank_, offk, sc(rank_, model.mag_int(2), "R*2"), sc(F, model.mag_int(2), "degF*2"),
+             typ("commonpt(degC,K)", "au::CommonPointUnitT<au::Celsius, au::Kelvins>", K.dim, model.mag_ratio(1, 100), 7, origin=0, is_type=True),
+             sc(offk, model.mag_int(2), "offsetK*2"), sc(K, model.mag_int(2), "K*2")]
+    out = {"volume": volume, "rootlen": rootlen, "frequency": frequency, "unitless": unitless, "length-pi": length_pi,
+           "length-big": length_big, "kinds": kinds, "temperature2": temp2}
+    if tier == "quick":
+        out = {"volume": volume[:8], "rootlen": rootlen[:5], "frequency": frequency[:6], "unitless": unitless[:6], "length-pi": length_pi[:8],
+               "length-big": length_big[:6], "kinds": kinds[:7], "temperature2": temp2[:8]}
+    return out
+
+
 def all_rational(units):
     return all(model.mag_is_rational(model.vdiv(a.mag, units[0].mag)) for a in units)
 
 
 def check(run):
     tier = run.tier
-    bks = buckets(tier)
-    maxlen = 3 if tier == "quick" else 4
+    quick = tier == "quick"
+    bks = dict(buckets(tier))
+    bks.update(extra_buckets(tier))
+    maxlen = 4
     recs, meta = [], {}
     rid = 0
     n_states = n_trans = 0
     for bname, units in bks.items():
         n_states += len(units)
         for size in range(2, maxlen + 1):
-            pool = units if size < 4 else units[:10]
+            # size 4: quick = the first six units of every bucket (15 lists each), thorough = the first ten
+            pool = units if size < 4 else units[:(6 if quick else 10)]
             for combo in itertools.combinations(range(len(pool)), size):
                 us = [pool[i] for i in combo]
-                if model.ordering_conflict(us):
+                if conflict(us):
                     continue
                 n_states += 1
                 names = [u.cpp for u in us]
@@ -120,6 +226,11 @@ def check(run):
                 variants.append("au::CommonUnitT<%s>" % ", ".join(names + [names[0]]))       # repetition
                 variants.append("au::CommonUnitT<%s>" % ", ".join([names[-1]] + names + names))
                 variants.append("decltype(au::common_unit(%s))" % ", ".join(n + "{}" for n in reversed(names)))
+                # the same operation spelt with makers / symbols / unit instances in the slots, and through make_common
+                slots = ["au::QuantityMaker<%s>{}", "au::SymbolFor<%s>{}", "%s{}", "au::make_constant(%s{})"]
+                variants.append("decltype(au::common_unit(%s))" % ", ".join(slots[i % 4] % n for i, n in enumerate(names)))
+                variants.append("decltype(au::make_common(%s))::Unit" % ", ".join("au::QuantityMaker<%s>{}" % n for n in reversed(names)))
+                variants.append("au::AssociatedUnitT<decltype(au::make_common(%s))>" % ", ".join("au::SymbolFor<%s>{}" % n for n in names))
                 nests = []
                 for k in range(1, size):
                     left, right = names[:k], names[k:]
@@ -127,6 +238,15 @@ def check(run):
                     nests.append("au::CommonUnitT<%s, au::CommonUnitT<%s>>" % (", ".join(left), ", ".join(right)))
                     if len(left) > 1 and len(right) > 1:
                         nests.append("au::CommonUnitT<au::CommonUnitT<%s>, au::CommonUnitT<%s>>" % (", ".join(right), ", ".join(left)))
+                if size == 4:
+                    # a CommonUnit-typed element at every position among the other units
+                    inner = "au::CommonUnitT<%s, %s>" % (names[1], names[3])
+                    for pm in itertools.permutations([inner, names[0], names[2]]):
+                        nests.append("au::CommonUnitT<%s>" % ", ".join(pm))
+                if size == 3:
+                    # the real producer of nesting: the n-ary std::common_type folds pairwise
+                    for order in (names, names[::-1], [names[1], names[2], names[0]]):
+                        nests.append("std::common_type_t<%s>::Unit" % ", ".join("au::Quantity<%s, int>" % n for n in order))
                 stm = ['using C = %s;' % C, 'vf_kv("u", "{" + vf::unit_json<C>() + "}");']
                 stm.append('{ const bool p[] = {%s}; long bad = -1; for (long i = 0; i < %d; ++i) if (!p[i] && bad < 0) bad = i; vf_i("perm_bad", bad); }'
                            % (", ".join("std::is_same<%s, C>::value" % v for v in variants), len(variants)))
@@ -138,9 +258,15 @@ def check(run):
                 stm.append('vf_b("nest_sym", std::is_same<au::CommonUnitT<au::CommonUnitT<%s>, %s>, au::CommonUnitT<%s, au::CommonUnitT<%s>>>::value);'
                            % (", ".join(names[:-1]) if size > 2 else names[0], names[-1], names[-1], ", ".join(names[:-1]) if size > 2 else names[0]))
                 if size == 2:
-                    stm.append('vf_b("common_type", std::is_same<std::common_type_t<au::Quantity<%s, int32_t>, au::Quantity<%s, int64_t>>, au::Quantity<C, int64_t>>::value '
-                               '&& std::is_same<std::common_type_t<au::Quantity<%s, float>, au::Quantity<%s, int16_t>>, au::Quantity<C, float>>::value);'
-                               % (names[0], names[1], names[1], names[0]))
+                    qa, qb = "au::Quantity<%s, int32_t>" % names[0], "au::Quantity<%s, int64_t>" % names[1]
+                    qc, qd = "au::Quantity<%s, float>" % names[1], "au::Quantity<%s, int16_t>" % names[0]
+                    stm.append('vf_b("ct_exact", std::is_same<std::common_type_t<%s, %s>, au::Quantity<C, int64_t>>::value '
+                               '&& std::is_same<std::common_type_t<%s, %s>, au::Quantity<C, float>>::value);' % (qa, qb, qc, qd))
+                    stm.append('vf_b("ct_sym", std::is_same<std::common_type_t<%s, %s>, std::common_type_t<%s, %s>>::value '
+                               '&& std::is_same<std::common_type_t<%s, %s>, std::common_type_t<%s, %s>>::value);' % (qa, qb, qb, qa, qc, qd, qd, qc))
+                    stm.append('{ using T1 = std::common_type_t<%s, %s>; using T2 = std::common_type_t<%s, %s>; '
+                               'vf_b("ct_equiv", au::are_units_quantity_equivalent(T1::Unit{}, C{}) && au::are_units_quantity_equivalent(T2::Unit{}, C{}) '
+                               '&& std::is_same<T1::Rep, int64_t>::value && std::is_same<T2::Rep, float>::value); }' % (qa, qb, qc, qd))
                 rat = all_rational(us)
                 if rat:
                     ratios = ", ".join('vf::MagJson<au::UnitRatioT<%s, C>>::get()' % n for n in names)
@@ -149,15 +275,27 @@ def check(run):
                 meta[rid] = {"bucket": bname, "units": us, "variants": variants, "nests": nests, "rational": rat}
                 n_trans += len(variants) + len(nests) + 1
                 rid += 1
-    cfgs = core.CORNERS if tier == "quick" else core.CFG6
+    cfgs = core.CORNERS if quick else core.CFG6
     n_rational = n_irr = 0
+    cnt = {"irrational_nesting_not_equivalent_not_judged": 0, "common_type_not_literally_Quantity_of_CommonUnitT_not_judged": 0,
+           "gcd_unit_is_a_nested_CommonUnit_input_result_equivalent_not_identical": 0}
+    done_cfgs = []
+    per_cfg = None
     for cfg in cfgs:
-        res, failed = psx.run_dump(cfg, recs, os.path.join(run.wd, cfg.name), "c07", PREAMBLE, flags=cflags(cfg),
-                                   chunk=max(20, len(recs) // (core.NCPU * 3) + 1))
+        if per_cfg is not None and run.time_left() < 1.3 * per_cfg:
+            break
+        t0 = run.elapsed()
+        res, failed = psx.run_dump(cfg, recs, os.path.join(run.wd, cfg.name), "c07", PREAMBLE7, flags=cflags(cfg),
+                                   chunk=max(20, min(150, len(recs) // (core.NCPU * 3) + 1)))
+        done_cfgs.append(cfg)
+        per_cfg = run.elapsed() - t0
         for r, diag in failed.items():
             m = meta[r]
             desc = ",".join(u.name for u in m["units"])
-            run.violation("C07:does-not-compile:%s" % desc, "%s: CommonUnitT<%s> (same dimension) does not compile: %s" % (cfg, desc, diag))
+            key = "C07:does-not-compile:%s" % desc
+            run.violation(key, "%s: CommonUnitT<%s> (same dimension) does not compile: %s" % (cfg, desc, diag),
+                          run.write_replay(key, {"kind": "program", "config": str(cfg), "units": [u.cpp for u in m["units"]],
+                                                 "stmts": recs[r][1], "diag": diag}))
         for r, o in res.items():
             m = meta[r]
             us = m["units"]
@@ -172,13 +310,21 @@ def check(run):
             if got_d != model.dim_key(us[0].dim):
                 viol("dim", "common unit of %s has dimension %s" % (desc, got_d))
             if o["perm_bad"] >= 0:
-                viol("permutation", "CommonUnitT of (%s) differs for ordering/repetition %s" % (desc, m["variants"][o["perm_bad"]]))
+                viol("permutation", "CommonUnitT of (%s) differs for ordering/repetition/spelling %s" % (desc, m["variants"][o["perm_bad"]]))
             if o["nest_bad"] >= 0:
-                viol("nesting", "nested %s is not quantity-equivalent to the flat common unit of (%s)" % (m["nests"][o["nest_bad"]], desc))
+                if m["rational"]:
+                    viol("nesting", "nested %s is not quantity-equivalent to the flat common unit of (%s)" % (m["nests"][o["nest_bad"]], desc))
+                else:
+                    cnt["irrational_nesting_not_equivalent_not_judged"] += 1    # only a symmetric result is promised there
             if not o["nest_sym"]:
                 viol("nesting-symmetry", "nested common unit of (%s) depends on argument order" % desc)
-            if "common_type" in o and not o["common_type"]:
-                viol("common-type", "std::common_type_t of quantities of (%s) is not Quantity<CommonUnitT, common rep>" % desc)
+            if "ct_sym" in o:
+                if not o["ct_sym"]:
+                    viol("common-type-symmetry", "std::common_type_t of quantities of (%s) depends on the argument order" % desc)
+                if not o["ct_equiv"]:
+                    viol("common-type", "std::common_type_t of quantities of (%s) is not a quantity of a unit equivalent to the common unit in the common rep" % desc)
+                if not o["ct_exact"]:
+                    cnt["common_type_not_literally_Quantity_of_CommonUnitT_not_judged"] += 1
             if m["rational"]:
                 n_rational += 1
                 g = model.mag_gcd([u.mag for u in us])
@@ -203,22 +349,34 @@ def check(run):
                     if gg != 1:
                         viol("not-largest", "ratios %s of (%s) share the factor %d: a larger common unit exists" % (ints, desc, gg))
                 has = [i for i, u in enumerate(us) if model.mag_key(u.mag) == model.mag_key(g)]
-                if has and o["same_as_input"] < 0:
-                    viol("not-an-input", "input %s already is the gcd unit of (%s) but the common unit is a different type" % (us[has[0]].name, desc))
+                # an input that is itself CommonUnit-typed is flattened: for it the nesting clause (quantity-equivalence, checked
+                # through unit_ratio == 1 above) governs, not "is one of the inputs"
+                demand = [i for i in has if rank(us[i]) != 6]
+                if has and not demand and o["same_as_input"] < 0:
+                    cnt["gcd_unit_is_a_nested_CommonUnit_input_result_equivalent_not_identical"] += 1
+                if demand and o["same_as_input"] < 0:
+                    viol("not-an-input", "input %s already is the gcd unit of (%s) but the common unit is a different type" % (us[demand[0]].name, desc))
                 if o["same_as_input"] >= 0 and o["same_as_input"] not in has:
                     viol("wrong-input", "common unit of (%s) is input %s which is not the gcd unit" % (desc, us[o["same_as_input"]].name))
             else:
                 n_irr += 1
+    complete = len(done_cfgs) == len(cfgs)
     run.cov.update({
-        "states": n_states, "transitions": n_trans, "traces_validated_against_impl": n_trans * len(cfgs),
+        "states": n_states, "transitions": n_trans, "traces_validated_against_impl": n_trans * len(done_cfgs),
         "lists": len(recs), "lists_rational_checked": n_rational, "lists_irrational_checked": n_irr,
         "max_list_length": maxlen, "buckets": {k: [u.name for u in v] for k, v in bks.items()},
-        "configs": [str(c) for c in cfgs], "exhaustive": True,
-        "exhaustive_note": "all multisets of size 2..%d over the stated per-dimension alphabets (size 4: first 10 units, every third permutation); all permutations for sizes 2-3" % maxlen,
+        "configs": [str(c) for c in done_cfgs], "exhaustive": complete,
+        "exhaustive_note": ("all multisets of size 2..4 over the stated per-dimension enumerated alphabets (size 4: first %d units of each bucket, every third permutation); "
+                            "all permutations for sizes 2-3; per list one repetition pattern, maker/symbol/constant slot spellings, make_common, every nesting split, "
+                            "a CommonUnit element at every position (size 4) and the 3-ary std::common_type fold (size 3)" % (6 if quick else 10))
+                           + ("" if complete else "; stopped before configurations %s (time budget)" % [str(c) for c in cfgs[len(done_cfgs):]]),
         "samples": [{"list": [u.name for u in meta[r]["units"]], "forms": meta[r]["variants"][:2]} for r in list(meta)[:: max(1, len(meta) // 5)]][:6],
     })
+    run.cov.update(cnt)
     run.assumptions += ["gcd oracle = base-wise minimum of exact prime-exponent vectors; demanded only when all pairwise ratios are rational",
-                        "lists with two distinct named units of identical dim/mag/origin are excluded (documented ordering limitation)"]
+                        "lists with two distinct unit types of the same kind (named, Pow, scaled with equal factor, ...) and identical dim/mag/origin are excluded (documented ordering limitation)",
+                        "nesting (incl. the n-ary std::common_type fold) must be quantity-equivalent to the flat common unit for rational lists; for irrational lists a mismatch is counted, not judged",
+                        "std::common_type_t of two quantities must be symmetric and a quantity of a unit equivalent to the common unit in the common rep; literal identity with Quantity<CommonUnitT, rep> is counted only"]
 
 
 def replay(path):
@@ -227,9 +385,13 @@ def replay(path):
     cfg = [c for c in core.CFG6 if str(c) == r.get("config")]
     cfg = cfg[0] if cfg else core.GXX14
     wd = os.path.join(core.BUILD, "C07", "replay")
-    res, failed = psx.run_dump(cfg, [(0, r["stmts"])], wd, "rp", PREAMBLE, flags=cflags(cfg))
+    os.makedirs(wd, exist_ok=True)
+    res, failed = psx.run_dump(cfg, [(0, r["stmts"])], wd, "rp", PREAMBLE7, flags=cflags(cfg))
     print("observed now:", res.get(0), failed)
-    if failed or res.get(0) == r.get("observed"):
+
+    def strip(o):
+        return {k: v for k, v in (o or {}).items() if k != "id"}
+    if failed or (r.get("observed") and strip(res.get(0)) == strip(r.get("observed"))):
         print("VIOLATION property=C07 replay=%s" % path)
         return 1
     return 0
